@@ -60,6 +60,8 @@ type Instant struct {
 	Top      []Move `json:"top,omitempty"`
 	ServeIn  []int  `json:"si,omitempty"`
 	ServeOut []int  `json:"so,omitempty"`
+	StrayIn  []int  `json:"xi,omitempty"` // stray responses: >= 0 data-ready with that many bytes, < 0 write-done
+	StrayOut []int  `json:"xo,omitempty"`
 	DrainTop int    `json:"dt"`
 	DrainIn  int    `json:"di"`
 	DrainOut int    `json:"do"`
@@ -193,6 +195,8 @@ type runObs struct {
 
 var freeID uint64 = 1 << 60
 
+const strayBase = 1_000_000_000
+
 func execute(in input) (runObs, error) {
 	engine := timing.NewSerialEngine()
 	reg := modeling.NewStandaloneRegistrar(engine)
@@ -271,6 +275,20 @@ func execute(in input) (runObs, error) {
 		for _, k := range st.ServeOut {
 			serve(1, k)
 		}
+		for s, xs := range [][]int{st.StrayIn, st.StrayOut} {
+			for j, x := range xs {
+				if !ports[s].CanDeliver() {
+					continue
+				}
+				freeID++
+				meta := messaging.MsgMeta{ID: freeID, Src: memName[s], Dst: ports[s].AsRemote(), RspTo: base + strayBase + uint64(j)}
+				if x >= 0 {
+					ports[s].Deliver(memprotocol.DataReadyRsp{MsgMeta: meta, Data: make([]byte, x)})
+				} else {
+					ports[s].Deliver(memprotocol.WriteDoneRsp{MsgMeta: meta})
+				}
+			}
+		}
 		panicked, msg := hx.Try(func() { to.Progress = comp.Tick() })
 		if panicked {
 			ob.Outcome = 1
@@ -288,11 +306,8 @@ func execute(in input) (runObs, error) {
 				return ob, fmt.Errorf("unexpected top message %T", m)
 			}
 			var dst int
-			if _, err := fmt.Sscanf(string(a.Dst), "M%d", &dst); err != nil {
-				return ob, fmt.Errorf("bad ack dst %q", a.Dst)
-			}
-			if a.Src != top.AsRemote() {
-				return ob, fmt.Errorf("bad ack src %q", a.Src)
+			if _, err := fmt.Sscanf(string(a.Dst), "M%d", &dst); err != nil || a.Src != top.AsRemote() {
+				dst = 999999 // not a requester / not sent from Top: the property predicate rejects it
 			}
 			to.Acks = append(to.Acks, hx.App("mk_ack", hx.N(rel(a.ID)), hx.N(uint64(dst)), hx.N(a.RspTo)))
 		}
@@ -334,6 +349,18 @@ func execute(in input) (runObs, error) {
 	return ob, nil
 }
 
+func strayList(xs []int) string {
+	s := make([]string, len(xs))
+	for j, x := range xs {
+		if x >= 0 {
+			s[j] = hx.App("MData", hx.N(strayBase+uint64(j)), hx.Bytes(make([]byte, x)))
+		} else {
+			s[j] = hx.App("MDone", hx.N(strayBase+uint64(j)))
+		}
+	}
+	return hx.L(s)
+}
+
 func natList(xs []int) string {
 	s := make([]string, len(xs))
 	for i, x := range xs {
@@ -360,7 +387,7 @@ func runRun(in input) (hx.Case, error) {
 			vs[j] = hx.App("mk_move", hx.N(v.ID), hx.N(uint64(v.Src)), hx.N(v.SAddr), hx.N(v.DAddr), hx.N(v.Size),
 				hx.N(uint64(v.SSide)), hx.N(uint64(v.DSide)))
 		}
-		script[i] = hx.App("mk_instant", hx.L(vs), natList(st.ServeIn), natList(st.ServeOut),
+		script[i] = hx.App("mk_instant", hx.L(vs), natList(st.ServeIn), natList(st.ServeOut), strayList(st.StrayIn), strayList(st.StrayOut),
 			hx.Nat(st.DrainTop), hx.Nat(st.DrainIn), hx.Nat(st.DrainOut))
 	}
 	ticks := make([]string, len(ob.Ticks))
